@@ -65,6 +65,39 @@ def workload(rng, n):
         items.append(("mac.generate_cbc_mac", (rb(rng, 16), bytearray(rb(rng, rng.randrange(9, 40))), 4, None, A.AES), "plain", None))
         items.append(("mac.generate_retail_mac", (rb(rng, 7), rb(rng, 8), bytearray(rb(rng, rng.randrange(9, 30))), 1, None), "plain", None))
         items.append(("pinblock.decipher_pinblock_iso_4", (rb(rng, 16), bytearray(rb(rng, rng.choice((15, 17, 32)))), "1234567890123"), "plain", None))
+    # every documented rejection of the card functions and PIN-block functions, twice each with different values (a rejection must
+    # not leave anything behind either: no shared exception object, no state)
+    for _ in range(2):
+        dk_, cv, pan16 = rb(rng, 16), digits(rng, 16), digits(rng, 16)
+        items += [("pin.generate_ibm3624_pin", (rb(rng, 9), cv, digits(rng, 4), pan16, 0, 12, "F"), "plain", None),
+                  ("pin.generate_ibm3624_pin", (dk_, digits(rng, 15), digits(rng, 4), pan16, 0, 12, "F"), "plain", None),
+                  ("pin.generate_ibm3624_pin", (dk_, cv, digits(rng, 4), digits(rng, 20), 0, 12, "F"), "plain", None),
+                  ("pin.generate_ibm3624_pin", (dk_, cv, digits(rng, 4), pan16, 0, 12, "G"), "plain", None),
+                  ("pin.generate_ibm3624_pin", (dk_, cv, digits(rng, 4), pan16, 10, 12, "F"), "plain", None),
+                  ("pin.generate_ibm3624_pin", (dk_, cv, digits(rng, 3), pan16, 0, 12, "F"), "plain", None),
+                  ("pin.generate_ibm3624_offset", (rb(rng, 7), cv, digits(rng, 4), pan16, 0, 12, "F"), "plain", None),
+                  ("pin.generate_ibm3624_offset", (dk_, cv + "1", digits(rng, 4), pan16, 0, 12, "F"), "plain", None),
+                  ("pin.generate_ibm3624_offset", (dk_, cv, digits(rng, 4), digits(rng, 25), 0, 12, "F"), "plain", None),
+                  ("pin.generate_ibm3624_offset", (dk_, cv, digits(rng, 4), pan16, 0, 12, "x"), "plain", None),
+                  ("pin.generate_ibm3624_offset", (dk_, cv, digits(rng, 4), pan16, 12, 8, "F"), "plain", None),
+                  ("pin.generate_ibm3624_offset", (dk_, cv, digits(rng, 17), pan16, 0, 12, "F"), "plain", None),
+                  ("pin.generate_visa_pvv", (rb(rng, 12), "1", digits(rng, 4), pan16), "plain", None),
+                  ("pin.generate_visa_pvv", (dk_, "12", digits(rng, 4), pan16), "plain", None),
+                  ("pin.generate_visa_pvv", (dk_, "1", digits(rng, 5), pan16), "plain", None),
+                  ("pin.generate_visa_pvv", (dk_, "1", digits(rng, 4), digits(rng, 11)), "plain", None),
+                  ("cvv.generate_cvv", (rb(rng, 8), pan16, digits(rng, 4), digits(rng, 3)), "plain", None),
+                  ("cvv.generate_cvv", (dk_, digits(rng, 20), digits(rng, 4), digits(rng, 3)), "plain", None),
+                  ("cvv.generate_cvv", (dk_, pan16, digits(rng, 3), digits(rng, 3)), "plain", None),
+                  ("cvv.generate_cvv", (dk_, pan16, digits(rng, 4), digits(rng, 2)), "plain", None),
+                  ("pinblock.encode_pinblock_iso_0", (digits(rng, 3), pan16), "plain", None),
+                  ("pinblock.encode_pinblock_iso_0", (digits(rng, 4), digits(rng, 12)), "plain", None),
+                  ("pinblock.encode_pinblock_iso_2", (digits(rng, 13),), "plain", None),
+                  ("pinblock.decode_pinblock_iso_0", (rb(rng, 7), pan16), "plain", None),
+                  ("pinblock.decode_pinblock_iso_2", (b"\x34" + rb(rng, 7),), "plain", None),
+                  ("pinblock.encode_pan_field_iso_4", (digits(rng, 20),), "plain", None),
+                  ("des.apply_key_variant", (rb(rng, 16), 32 + rng.randrange(100)), "plain", None),
+                  ("des.generate_kcv", (rb(rng, 9), 3), "plain", None),
+                  ("mac.pad_iso_3", (rb(rng, 40), 1), "plain", None)]
     for _ in range(n):
         k = rng.randrange(22)
         dk = rb(rng, rng.choice((8, 16, 24)))
